@@ -86,6 +86,7 @@ Theorem C13_source_facts :
   gen_conversion_keeps_metric = true /\
   gen_presence_metric = r_metric (presence 0) /\
   Forall (fun m => m mod two16 = 0) gen_config_route_metrics /\
-  gen_replay_sends_stored_metric = true.
+  gen_replay_sends_stored_metric = true /\
+  gen_forward_path_extension_unconditional_c13 = true /\ gen_table_keeps_entries_sorted_by_metric = true.
 Proof. repeat split; try reflexivity. repeat constructor. Qed.
 Print Assumptions C13_source_facts.
